@@ -418,6 +418,9 @@ Proof.
   pose proof (pfold_spec_fields h bsig nfds Hh Hb) as Hpf.
   pose proof (spec_fields_length h bsig nfds) as Hlen9.
   unfold hdr_valid in Hh. repeat (apply andb_prop in Hh; destruct Hh as [Hh ?]).
+  assert (Hty : 1 <= h_type h <= 4) by lia. assert (Hfl : h_flags h <= 7) by lia. assert (Hsn : 1 <= h_serial h < two32) by lia.
+  assert (Hv1 : 1 < 256) by reflexivity.
+  clear - Hb Hsz Hok Hpf Hlen9 Hty Hfl Hsn Hv1.
   set (e := h_endian h) in *. set (l := spec_fields h bsig nfds) in *. set (arr := spec_array e l) in *.
   assert (Hszb : len body < two32 /\ len arr < two32).
   { unfold spec_message, spec_header in Hsz. fold e l arr in Hsz. rewrite len_app, len_pad8, !len_app, !len_u32 in Hsz.
@@ -465,7 +468,7 @@ Proof.
   (* from_raw_parts *)
   unfold from_raw_parts. rewrite Eb at 1. cbn [app]. rewrite endian_rt, endian_eqb_refl. cbn [negb].
   rewrite Eb at 1.
-  rewrite (de_primary_at e e (h_type h) (h_flags h) 1 (len body) (h_serial h)) by (unfold two32 in *; lia).
+  rewrite (de_primary_at e e (h_type h) (h_flags h) 1 (len body) (h_serial h) _ Hty Hfl Hv1 Hbl Hsn).
   cbn [bind N.eqb Pos.eqb negb].
   unfold data_slice. replace (len b <? 12) with false by lia. cbn [bind].
   rewrite Hu32. cbn [bind]. rewrite Hdf. cbn [bind].
